@@ -62,6 +62,29 @@ Lemma fp_all : forall n e, (esize e < n)%nat -> core_expr e = true ->
 Proof.
   induction n as [|n IH]; [intros; lia|].
   intros e Hsz Hc.
+  assert (Hopt : forall o, (osz esize o < n)%nat -> match o with Some y => core_expr y | None => true end = true ->
+            match option_map full_paren o with Some y => core_expr y | None => true end = true /\
+            opt_all (wpx 0 true) (option_map full_paren o) = true /\
+            option_map strip_paren (option_map strip_spans (option_map full_paren o)) =
+            option_map strip_paren (option_map strip_spans o)).
+  { intros [y|] Hs Hy; cbn [option_map opt_all osz] in *; [|repeat split; reflexivity].
+    destruct (IH y Hs Hy) as (A & B & C). rewrite A, B, C. repeat split; reflexivity. }
+  assert (Hpar : forall p, (param_size p <= n)%nat -> pcore p = true ->
+            pcore (fp_param p) = true /\ wp_param (fp_param p) = true /\
+            unp_param (strip_param (fp_param p)) = unp_param (strip_param p)).
+  { intros [nm d] Hs Hp. cbn [param_size pcore fp_param wp_param strip_param unp_param] in *.
+    destruct (Hopt d ltac:(lia) Hp) as (A & B & C). rewrite A, B, C. repeat split; reflexivity. }
+  assert (Hpars : forall l, (lsum param_size l <= n)%nat -> forallb pcore l = true ->
+            forallb pcore (map fp_param l) = true /\ forallb wp_param (map fp_param l) = true /\
+            map unp_param (map strip_param (map fp_param l)) = map unp_param (map strip_param l)).
+  { intros l Hs Hl.
+    assert (Hi : forall p, In p l -> pcore p = true -> pcore (fp_param p) = true /\ wp_param (fp_param p) = true /\
+                   unp_param (strip_param (fp_param p)) = unp_param (strip_param p)).
+    { intros p Hin Hp. pose proof (lsum_in param_size l p Hin). apply Hpar; [lia|exact Hp]. }
+    split; [apply (forallb_map_in pcore pcore fp_param); [intros p Hin Hp; apply (Hi p Hin Hp)|exact Hl]|].
+    split; [apply (forallb_map_in pcore wp_param fp_param); [intros p Hin Hp; apply (Hi p Hin Hp)|exact Hl]|].
+    rewrite !map_map. apply map_ext_in. intros p Hin. apply Hi; [exact Hin|].
+    rewrite forallb_forall in Hl. apply (Hl p Hin). }
   destruct e; cbn [core_expr] in Hc; try discriminate; cbn [esize] in Hsz;
     try (repeat split; reflexivity).
   - (* EParen *)
@@ -142,6 +165,30 @@ Proof.
     { rewrite !map_map. apply map_ext_in. intros a Hin. apply Ha; [exact Hin|].
       rewrite forallb_forall in Hca. apply (Hca a Hin). }
     rewrite E1, E2, E3. repeat split; reflexivity.
+  - (* ELocal *)
+    apply andb_true_iff in Hc as [Hc Hcb]. apply andb_true_iff in Hc as [Hne Hcbs].
+    destruct (IH e ltac:(lia) Hcb) as (A1 & B1 & C1).
+    assert (Hb : forall b, In b binds -> bcore b = true ->
+              bcore (fp_bind b) = true /\ wp_bind (fp_bind b) = true /\
+              unp_bind (strip_bind (fp_bind b)) = unp_bind (strip_bind b)).
+    { intros b Hin Hbc. pose proof (lsum_in bind_size binds b Hin) as Hle.
+      destruct b as [nm ps v]. cbn [bcore fp_bind wp_bind strip_bind unp_bind bind_size] in *.
+      apply andb_true_iff in Hbc as [Hps Hv].
+      destruct (IH v ltac:(lia) Hv) as (A & B & C).
+      destruct ps as [[l psp]|].
+      - destruct (Hpars l ltac:(lia) Hps) as (P1 & P2 & P3). rewrite P1, P2, P3, A, B, C. repeat split; reflexivity.
+      - rewrite A, B, C. repeat split; reflexivity. }
+    cbn [full_paren core_expr wpx strip_spans strip_paren andb].
+    assert (E0 : negb (match map fp_bind binds with [] => true | _ => false end) = true) by (destruct binds; cbn in *; congruence).
+    assert (E1 : forallb bcore (map fp_bind binds) = true).
+    { apply (forallb_map_in bcore bcore fp_bind); [intros b Hin Hbc; apply (Hb b Hin Hbc)|exact Hcbs]. }
+    assert (E2 : forallb wp_bind (map fp_bind binds) = true).
+    { apply (forallb_map_in bcore wp_bind fp_bind); [intros b Hin Hbc; apply (Hb b Hin Hbc)|exact Hcbs]. }
+    assert (E3 : map unp_bind (map strip_bind (map fp_bind binds)) = map unp_bind (map strip_bind binds)).
+    { rewrite !map_map. apply map_ext_in. intros b Hin. apply Hb; [exact Hin|].
+      rewrite forallb_forall in Hcbs. apply (Hcbs b Hin). }
+    change (forallb (fun b => match b with MkBind _ ps v => match ps with Some (l, _) => forallb (fun p => match p with MkParam _ d => match d with Some y => core_expr y | None => true end end) l | None => true end && core_expr v end) (map fp_bind binds)) with (forallb bcore (map fp_bind binds)).
+    rewrite E0, E1, E2, E3, A1, !B1, C1. repeat split; reflexivity.
   - (* EIf *)
     apply andb_true_iff in Hc as [Hc Hc3]. apply andb_true_iff in Hc as [Hc1 Hc2].
     destruct (IH e1 ltac:(lia) Hc1) as (A1 & B1 & C1). destruct (IH e2 ltac:(lia) Hc2) as (A2 & B2 & C2).
@@ -159,6 +206,13 @@ Proof.
   - (* EUnary *)
     destruct (IH e ltac:(lia) Hc) as (A & B & C).
     cbn [full_paren core_expr wpx strip_spans strip_paren andb]. rewrite A, !B, C. repeat split; reflexivity.
+  - (* EFunc *)
+    apply andb_true_iff in Hc as [Hcps Hcb].
+    destruct (IH e ltac:(lia) Hcb) as (A1 & B1 & C1).
+    destruct (Hpars params ltac:(lia) Hcps) as (P1 & P2 & P3).
+    cbn [full_paren core_expr wpx strip_spans strip_paren andb].
+    change (forallb (fun p => match p with MkParam _ d => match d with Some y => core_expr y | None => true end end) (map fp_param params)) with (forallb pcore (map fp_param params)).
+    rewrite P1, P2, P3, A1, !B1, C1. repeat split; reflexivity.
   - (* EAssert *)
     destruct a as [asp ac am]. cbn [assert_size] in Hsz.
     apply andb_true_iff in Hc as [Hc Hcb]. apply andb_true_iff in Hc as [Hc1 Hcm].
